@@ -68,6 +68,15 @@ def carry_kernels(crate):
         else:
             probs += _check_overflowing_style(b, steps)
         probs += _every_iteration_steps(b, [s[0] for s in steps], steps)
+        if probs and b.unmodelled_iteration() and not any("kernel calls" in p_ for p_ in probs):
+            probs = ["UNDECIDED: the kernel walks its words through %s, which this rule does not model (%s)"
+                     % (", ".join(b.unmodelled_iteration()), "; ".join(p_[:70] for p_ in probs)[:240])]
+        if any(p_.startswith("UNDECIDED:") for p_ in probs):
+            rest = [p_ for p_ in probs if not p_.startswith("UNDECIDED:")]
+            if not rest:
+                res.append((b, b.key, "undecided", "; ".join(p_[11:] for p_ in probs)))
+                continue
+            probs = rest
         res.append((b, b.key, "violation" if probs else "pass",
                     "; ".join(dict.fromkeys(probs)) if probs else
                     "%d word steps, carry threaded (%s style), performed on every iteration of their loop"
@@ -78,11 +87,17 @@ def carry_kernels(crate):
 def _idle_exit(b, body, ent, sblk, step):
     """the only ways out of the loop before the step are branches taken when the carry is zero, in a loop whose step adds a
     zero word (`if carry == 0 { break }` in the ripple over the upper words): the skipped steps are cadd(w, 0, 0) = identity"""
-    if step is None or step[1] != "c":
+    if step is None:
         return False
     bb, style, c, e, t = step
-    if not (is_call(e, ("cadd", "csub")) and len(e[3]) == 3 and _is_zero_const(e[3][1])):
-        return False
+    if style == "c":
+        if not (is_call(e, ("cadd", "csub")) and len(e[3]) == 3 and _is_zero_const(e[3][1])):
+            return False
+    else:
+        # overflowing_add(word, carry): the whole addend is the carry; leaving when it is zero skips `word + 0`
+        if not (is_call(e, ("overflowing_add", "overflowing_sub")) and len(e[3]) == 2):
+            return False
+        c = e[3][1]
     reach = b.reach_avoiding([ent], avoid_blocks=[sblk])
     exits = 0
     for sb, cond, ts, fs in guard.cond_edges(b):
@@ -221,6 +236,9 @@ def _check_overflowing_style(b, steps):
         a0, a1 = e[3]
         if a1[0] == "var" and len(a1) > 2 and mir.root_of(a0) == ("param", "self") and a0[0] == "index":
             carry_locals.add(a1[2])
+    if len(carry_locals) == 0:
+        return ["UNDECIDED: the word steps do not take an indexed storage word of self as first operand (items of an iterator / a "
+                "split slice): which local is the carry is not identified"]
     if len(carry_locals) != 1:
         return ["expected one carry variable threaded through the word steps, found %d" % len(carry_locals)]
     cl = list(carry_locals)[0]
@@ -317,6 +335,16 @@ def _slot_mask(b, ty):
                     return "pass", "mask(n) = (1 << n) - 1 if n < BITS else MAX"
                 return "violation", "(1 << n) - 1 is computed on the branch where n >= BITS"
         return "pass", "mask(n) = (1 << n) - 1 if n < BITS else MAX"
+    # whatever the spelling: the length must not lose its high bits before it is compared with the word width
+    lp = ("param", b.local_name(1))
+    for bb, i, st in b.iter_stmts():
+        if st["s"] == "assign" and st["r"]["k"] == "cast" and st["r"]["ck"] == "IntToInt" and b.e_operand(st["r"]["o"]) == lp \
+                and mir.short_ty(st["r"]["ty"]) in ("u8", "u16", "u32", "i8", "i16", "i32"):
+            bounded = any(l == lp and op in ("Lt", "Le") for sb, cond, taken, succ, other in guard.edges_dominating(b, bb)
+                          for op, l, r in guard.relations_on_edge(cond, taken))
+            if not bounded:
+                return "violation", ("`length as %s` truncates the length before it is compared with the word width: a length of 2^32 + k "
+                                     "(k < BITS) yields a k-bit mask instead of a full one" % mir.short_ty(st["r"]["ty"]))
     if len(alts) == 2 and len(edges) == 1 and not any(bb for bb, t, fn in b.iter_calls() if fn and fn["name"] not in ("wrapping_sub", "shl", "sub")):
         return "violation", "mask is %s under %s" % (shown, conds)
     return "undecided", "mask is written in a form this rule does not model (%s under %s): its value is not decided" % (shown, conds)
@@ -880,7 +908,24 @@ def parse_protocol(crate):
                 ok = p[0] == "field" and p[2] == "0" and p[1][0] == "iv"
                 if ok:
                     src = b.iter_source(p[1][1])
-                    ok = is_call(src, "enumerate") and is_call(src[3][0], "chars")
+                    # the counter must be attached to the characters themselves: enumerate() applied directly to chars(),
+                    # wherever the enumerated iterator is then stored, borrowed or cut into per-word pieces
+                    # (`let mut it = s.chars().enumerate(); for (i, c) in it.by_ref().take(n)`). An enumerate() applied
+                    # to a piece (`chars.by_ref().take(n).enumerate()`) restarts at every piece.
+                    cur = src
+                    for _ in range(8):
+                        if is_call(cur, ("take", "by_ref", "skip", "into_iter", "peekable", "fuse")) and cur[3]:
+                            cur = cur[3][0]
+                        elif cur[0] == "var" and len(cur) > 2 and b.init_expr(cur[2]) is not None:
+                            cur = b.init_expr(cur[2])
+                        else:
+                            break
+                    ok = is_call(cur, "enumerate") and cur[3]
+                    if ok:
+                        inner = cur[3][0]
+                        if inner[0] == "var" and len(inner) > 2 and b.init_expr(inner[2]) is not None:
+                            inner = b.init_expr(inner[2])
+                        ok = is_call(inner, "chars")
                     if not ok:
                         res.append((b, key, "violation", "error index comes from `%s`, not chars().enumerate() iterated forwards" % show(src)))
                         continue
@@ -1132,13 +1177,25 @@ def trait_defaults(crate):
                 and show(rs[0][2][2]).endswith("Zero")
             ret = b.return_expr()
             ok = ok and is_call(ret, "copy_range")
-        res.append((b, "ORDER split_off", "pass" if ok else "violation",
-                    "high = copy_range(index..len) happens before resize(index, Zero); returns high" if ok else "split_off is not copy_range(index..len) -> resize(index) -> high"))
+        # another arrangement (a fast path for index == len, truncate instead of resize, mem::replace ..) is judged on the
+        # lengths of the two halves per path (LENFLOW halves); the order rule itself only recognises the reviewed sequence -
+        # and the one positive contradiction: the high part copied out of self *after* self was shrunk
+        shrinks = [c for c in cs if c[1] in ("resize", "truncate") and c[2] and c[2][0] == P(b.local_name(1))]
+        late = [c for c in cr if any(b.block_dominates(s_[0], c[0]) and s_[0] != c[0] for s_ in shrinks)]
+        if not ok and late:
+            res.append((b, "ORDER split_off", "violation", "copy_range runs after self was already resized: the bits above index are gone "
+                        "(zero-filled) when they are copied"))
+            ok = None
+        if ok is not None:
+          res.append((b, "ORDER split_off", "pass" if ok else "undecided",
+                    "high = copy_range(index..len) happens before resize(index, Zero); returns high" if ok else
+                    "split_off is not the reviewed copy_range(index..len) -> resize(index) -> high sequence: see LENFLOW halves"))
     b = defaults.get("split")
     if b is not None:
         ret = b.return_expr()
         ok = ret[0] == "tuple" and is_call(ret[1][0], "split_off") and ret[1][1] == P("self")
-        res.append((b, "ORDER split", "pass" if ok else "violation", "returns (split_off(index), self)" if ok else "returns %s" % show(ret)))
+        res.append((b, "ORDER split", "pass" if ok else "undecided", "returns (split_off(index), self)" if ok else
+                    "returns %s: not the reviewed (split_off(index), self); see LENFLOW halves" % show(ret)[:80]))
     b = defaults.get("insert")
     if b is not None:
         cs = [c for c in calls_in_order(b) if c[1] in ("split_off", "append", "prepend", "resize")]
@@ -1201,6 +1258,11 @@ def trait_defaults(crate):
         ret = b.return_expr()
         alts = ret[2] if ret[0] == "phi" else (ret,)
         none_ok = any(show(a).endswith("None") for a in alts)
+        if not gets and crate.closures_of.get(b.path):
+            # written with Option / bool combinators (`(!is_empty()).then(|| get(0))`, `len.checked_sub(1).map(|i| get(i))`):
+            # the element access sits in a closure, which this rule does not read
+            res.append((b, "ORDER %s" % nm, "undecided", "%s reads the bit inside a closure (combinator style): not decided" % nm))
+            continue
         res.append((b, "ORDER %s" % nm, "pass" if ok and g and none_ok else "violation",
                     "%s: Some(get(%s)) under len > 0, else None" % (nm, "0" if idx else "len-1") if ok and g and none_ok else "%s has an unexpected shape" % nm))
     # pop: get before set before len store (both impls)
@@ -1319,6 +1381,8 @@ def kernel_coverage(crate):
             probs.append("common-words loops 0..min(words(self), X) for X in %s are not matched by remaining-words loops X..words(self) (found tails for %s): "
                          "the words of self above the shorter operand would not be processed"
                          % ([show(h) for h in heads], [show(t) for t in tails]))
+        if not fulls and not heads and not unmodelled and b.unmodelled_iteration():
+            unmodelled.append("the words are walked through %s" % ", ".join(b.unmodelled_iteration()))
         if not fulls and not heads and not unmodelled:
             probs.append("no loop covering the words of self found")
         if unmodelled and not probs:
@@ -1378,6 +1442,10 @@ def kernel_coverage(crate):
                         d = mir.strip_casts(a1)[3][1]
                         if not (_is_zero_const(d) or show(d) in ("0",)):
                             probs.append("missing multiplier words default to %s, not zero" % show(d))
+        if probs and b.unmodelled_iteration():
+            res.append((b, "%s|schoolbook shape" % b.key, "undecided", "the kernel walks its words through %s, which this rule does not model (%s)"
+                        % (", ".join(b.unmodelled_iteration()), "; ".join(probs)[:200])))
+            continue
         res.append((b, "%s|schoolbook shape" % b.key, "violation" if probs else "pass",
                     "; ".join(probs) if probs else "res[i+j] += lo(self[i] * rhs[j]) for i in 0..words, j in 0..words-i, zero-extended rhs"))
     return res
